@@ -189,7 +189,7 @@ Theorem recv_never_panics cfg e w p tape lie :
   is_panic (memo_of p) = false ->
   forall x, rr_out (recv_lie cfg e w p tape lie) <> OPanic x.
 Proof.
-  intros Hm x. unfold recv_lie, recv_with.
+  intros Hm x. unfold recv_lie, recv_with, recv_generic.
   destruct (negb (ccid_valid _)); [discriminate|].
   destruct (_ || _); [discriminate|].
   destruct (negb (existsb _ _)); [discriminate|].
